@@ -1618,7 +1618,9 @@ func IsFileModified(filepath string) (bool, error) {
 		"--porcelain",
 		"-z", // NUL-terminated entries: names are never quoted
 		"--", // separator in case filename ambiguous
-		filepath,
+		// filepath is relative to the top of the working tree,
+		// whatever the current directory is, and names one file
+		":(top,literal)" + filepath,
 	}
 	cmd, err := git(args...)
 	if err != nil {
